@@ -6,6 +6,7 @@ import (
 	"encoding/binary"
 	"errors"
 	"fmt"
+	ksnappy "github.com/segmentio/kafka-go/compress/snappy"
 	"io"
 	"runtime"
 	"runtime/debug"
@@ -525,8 +526,14 @@ func recordsScenario(s *Sim, params map[string]string) {
 				if prodCeil < 3 && codec == 4 {
 					codec = 1
 				}
+				// raw snappy blocks (what librdkafka and sarama emit) instead of
+				// the xerial framing: one block per batch whatever its size
+				unframed := codec == 2 && !viaClient && t.Intn("unframed", 2) == 0
 				for j := 0; j < k; j++ {
 					sb := sub{key: keys[t.Intn("work", len(keys))], val: vals[t.Intn("work", len(vals))]}
+					if unframed && j == k/2 && t.Intn("unframed", 2) == 0 {
+						sb.val = bytes.Repeat([]byte("u"), t.Range("unframed", 200000, 600000))
+					}
 					if big && j == 0 {
 						// shifts every later field against the page grid
 						sb.val = bytes.Repeat([]byte("p"), t.Range("work", 1, 70000))
@@ -591,9 +598,14 @@ func recordsScenario(s *Sim, params map[string]string) {
 					if codec == 0 {
 						_, err = conn.WriteMessages(msgs...)
 					} else {
-						_, err = conn.WriteCompressedMessages(kafka.Compression(codec).Codec(), msgs...)
+						var cdc kafka.CompressionCodec = kafka.Compression(codec).Codec()
+						if unframed {
+							cdc = &ksnappy.Codec{Framing: ksnappy.Unframed}
+							s.Count("unframed-snappy-produce")
+						}
+						_, err = conn.WriteCompressedMessages(cdc, msgs...)
 					}
-					what = fmt.Sprintf("Conn.WriteCompressedMessages(codec %d, produce<=v%d)", codec, prodCeil)
+					what = fmt.Sprintf("Conn.WriteCompressedMessages(codec %d unframed=%v, produce<=v%d)", codec, unframed, prodCeil)
 				}
 				s.Count("ops")
 				if err != nil {
